@@ -79,7 +79,13 @@ func seqCRL(id int, fresh bool, delta bool) *x509.RevocationList {
 	if !fresh {
 		nu = time.Now().Add(-time.Hour)
 	}
-	rl := makeCRL(int64(id), nu, id%3, delta)
+	// all base CRLs carry the SAME CRL number (and issuer), all delta CRLs another one: only the bytes tell them apart
+	// (a re-issued CRL may well keep its number); the list of revoked serials encodes the id
+	number := int64(7)
+	if delta {
+		number = 9
+	}
+	rl := makeCRL(number, nu, id, delta)
 	v, _ := seqCRLs.LoadOrStore(k, rl)
 	return v.(*x509.RevocationList)
 }
@@ -92,16 +98,15 @@ func concBundle(b AbsBundle) *corecrl.Bundle {
 	return out
 }
 
-// idOf identifies a returned CRL by its number and checks that it is byte-identical to the CRL minted under that id.
+// idOf identifies a returned CRL: the id under which a byte-identical CRL was minted (-1: nobody minted these bytes).
 func idOf(rl *x509.RevocationList) int {
-	if rl == nil || rl.Number == nil {
+	if rl == nil {
 		return -1
 	}
-	id := int(rl.Number.Int64())
 	found := -1
 	seqCRLs.Range(func(k, v interface{}) bool {
 		if bytes.Equal(v.(*x509.RevocationList).Raw, rl.Raw) {
-			found = id
+			fmt.Sscanf(k.(string), "%d/", &found)
 			return false
 		}
 		return true
@@ -211,6 +216,9 @@ func corruptFile(path string, kind string) {
 		c["deltaCRL"] = json.RawMessage(`""`)
 		out, _ := json.Marshal(c)
 		write(out)
+	case "trailing":
+		// a complete entry followed by something else: not a well-formed entry
+		write(append(b, []byte([]string{"}", " garbage", `{"foo":1}`, string(b)}[len(b)%4])...))
 	case "swapped":
 		if c == nil {
 			b[0] ^= 0x01
